@@ -68,6 +68,12 @@ fn main() {
                 _ => println!("{}", p.render_manpage("app", bpaf::doc::Section::General, None, None, None)),
             }
         }
+        Some("c20-digests") => {
+            bpafmc::checks::c20::digests_main(Tier::parse(&args[2]), args[3].parse().unwrap(), args[4].parse().unwrap(), args[5].parse().unwrap());
+        }
+        Some("c20-dump") => {
+            bpafmc::checks::c20::dump_main(Tier::parse(&args[2]), args[3].parse().unwrap(), args[4].parse().unwrap());
+        }
         Some("list") => {
             for c in &checks {
                 println!("{}", c.id());
